@@ -73,6 +73,10 @@ pub fn run_fault_free(id: &'static str, plan: &ClientPlan, want_trace: bool) -> 
                                 }
                                 h.u8(*no_tlv as u8);
                             }
+                            CardKind::RawTlv(x) => {
+                                h.u8(3);
+                                h.str(x)
+                            }
                         }
                         h.u8(card.pre);
                     }
@@ -1169,6 +1173,25 @@ impl Check for ClientCheck {
                         },
                     }])
                 }));
+                // a card read over a connection that has to be set up first (the terminal closed the old one
+                // while idle), with a handshake that is slow but healthy (each packet 2.5 s late: inside every
+                // per-packet time-out, the handshake as a whole longer than read_card's packet time-out)
+                {
+                    let cards = all_cards();
+                    let n = cards.len() as u64;
+                    fams.push(Family::new("card_grid_after_idle_close_and_slow_handshake", n * 3, true, move |i, _| {
+                        let c = cards[(i % n) as usize].clone();
+                        let mut p = ClientPlan::plain(vec![
+                            OpSpec::ReadCard { card: CardOutcome { pre: (i % 2) as u8, kind: c.clone(), delay_ms: 0 } },
+                            OpSpec::ReadCard { card: CardOutcome { pre: 0, kind: c, delay_ms: 0 } },
+                        ]);
+                        let (rc, pace) = [(1u8, 2_500u32), (0, 1_500), (15, 7_000)][(i / n) as usize];
+                        p.cfg.read_card_timeout = rc;
+                        p.pt.handshake_pace_ms = pace;
+                        p.faults = vec![FaultSpec { conn: 0, point: 12, kind: FaultKind::CloseIdle }];
+                        p
+                    }));
+                }
                 // the legal long forms: intermediate statuses with display texts, aborts with an extended
                 // error code and a text behind the result code - same card, same classification
                 fams.push(Family::new("all_256_abort_codes_decorated", 256 * 3, true, |i, _| {
